@@ -355,7 +355,15 @@ func c18Probes() []*pgen.Case {
 		mk("enum_ignore", "// goverter:converter\n// goverter:enum:unknown @ignore\ntype Converter interface {\n\t// goverter:enum:map A1 B1\n\tA(source KA) KB\n}\n"),
 		// enum with key
 		mk("enum_key", "// goverter:converter\n// goverter:enum:unknown B1\ntype Converter interface {\n\t// goverter:enum:map A1 B1\n\tA(source KA) KB\n}\n"),
+		// unsafe.Pointer inside the user's struct: a plain assignment needs no import of unsafe
+		mkUnsafe(),
 		// fallible extend without any wrapping
 		mk("extend_error_plain", "// goverter:converter\n// goverter:extend SE\ntype Converter interface {\n\tA(source In) (Out, error)\n}\n"),
 	}
+}
+
+func mkUnsafe() *pgen.Case {
+	c := pgen.RawCase("probe_unsafe_field", map[string]string{"p/input.go": "package p\n\nimport \"unsafe\"\n\ntype In struct{ P unsafe.Pointer; N int }\ntype Out struct{ P unsafe.Pointer; N int }\n\n// goverter:converter\ntype Converter interface {\n\t// goverter:update target\n\t// goverter:update:ignoreZeroValueField:basic\n\tUpdate(source In, target *Out)\n\tConvert(source In) Out\n}\n"}, nil, []string{"./p"})
+	c.Feature("probe", "unsafe_field")
+	return c
 }
